@@ -274,7 +274,7 @@ func c08GenFiles(r *rand.Rand, kind string) c08Case {
 }
 
 var c08SoupTokens = []string{"---", "\n", "\r\n", " ", "\t", "a: 1", "# c", "\v", "\f", " ", "\u0085", " ", "-", "--", "----", "...",
-	"x", "\n---", "---\n", "é", "\xc2", "\xe2\x80", "\n---\n", "kind: A", "　", "\xa0", "\n--- "}
+	"x", "\n---", "---\n", "é", "\xc2", "\xe2\x80", "\n---\n", "kind: A", "\u1680", "\u2000", "\u200a", "\u200b", "\u2029", "\u202f", "\u205f", "\u180e", "\ufeff", "\u2007", "\xe2\x80\x8b", "\xe1\x9a", "\x80", "　", "\xa0", "\n--- "}
 
 func c08GenSplit(r *rand.Rand) c08Case {
 	c := c08Case{Kind: "split"}
